@@ -41,7 +41,10 @@ func runOrder(hdr Header, c any, src string) CaseResult {
 	for _, n := range abs.Seq(cm["exp"]) {
 		want = append(want, abs.Str(n.(string)))
 	}
-	s := &jsonschema.Schema{Type: "object", Properties: props, PropertyOrder: order}
+	s := &jsonschema.Schema{Type: "object", Properties: props, PropertyOrder: order,
+		// unknown keywords, some equal up to letter case: "the same Schema value always marshals to the same bytes"
+		// covers them as well (repeated marshaling below)
+		Extra: map[string]any{"x-Order": 1.0, "x-order": 2.0, "X-ORDER": 3.0, "zz": true, "x-list": []any{"b", "a"}}}
 	kb, _ := json.Marshal(map[string]any{"props": cm["props"], "order": cm["order"]})
 	res.Key = string(kb)
 	res.Nontrivial = len(props) > 1 || len(want) == 1 && want[0] == "!error"
